@@ -390,6 +390,43 @@ theorem defaults_stay_attached (f : Func) (wf : WfFunc f) (inj : List Name)
   rw [hd p he, hk2, hp, hk, hfilter, hfilter, fromFunc_kwSig]
   rfl
 
+/-- an entry of `__annotations__` naming no parameter is not reported by `getfullargspec` -/
+theorem get?_annOf_of_not_mem {f : Func} {p : Name} (hp : p ∉ paramNames f) : get? p (annOf f) = none := by
+  unfold annOf
+  induction f.ann with
+  | nil => rfl
+  | cons q r ih =>
+    obtain ⟨k, v⟩ := q
+    by_cases hk : k ∈ paramNames f
+    · have : keyIn (paramNames f) (k, v) = true := by simpa [keyIn] using hk
+      rw [List.filter_cons_of_pos this, get?_cons, if_neg (fun (e : k = p) => hp (e ▸ hk)), ih]
+    · have : ¬ keyIn (paramNames f) (k, v) = true := by simpa [keyIn] using hk
+      rw [List.filter_cons_of_neg this, ih]
+
+/-- annotations as `inspect.signature` shows them, whatever is injected and expected: a parameter
+    that was a parameter of `f` shows the annotation it had in `f` (or none), a parameter that is
+    new shows none.  (For a name that is injected AND expected this describes the code as it is -
+    `remove_arg` leaves the builder's `annotations` alone, so the re-added parameter shows the
+    annotation of the removed one; the statement leaves that case open and the correspondence
+    does not compare it: `readdedW`.) -/
+theorem annotations_stay_attached (f : Func) (wf : WfFunc f) (inj : List Name)
+    (exp : List (Name × Option Val)) (o : Opts) (ident : Nat) (w : Func)
+    (h : updateWrapper f inj exp o ident = .ok w) (p : Name) :
+    get? p w.ann = (if p ∈ paramNames f then get? p f.ann else none) ∧ w.retAnn = f.retAnn := by
+  obtain ⟨fb1, fb2, h1, h2, _, rfl⟩ := updateWrapper_inv h
+  obtain ⟨wf1, _, _, hr1⟩ := injectAll_spec (wfFB_fromFunc wf) inj h1
+  obtain ⟨_, _, hr2, _, _⟩ := expectAll_spec wf1 exp h2
+  have hrest := hr2.trans hr1
+  simp only [FB.rest, Prod.mk.injEq] at hrest
+  obtain ⟨_, _, _, _, _, hann, hret, _⟩ := hrest
+  refine ⟨?_, hret⟩
+  show get? p fb2.annotations = _
+  rw [hann]
+  show get? p (annOf f) = _
+  by_cases hp : p ∈ paramNames f
+  · rw [if_pos hp]; exact get?_annOf hp
+  · rw [if_neg hp]; exact get?_annOf_of_not_mem hp
+
 /-- the function `update_wrapper` returns is again a well-formed function object - so it can
     be wrapped again, and all of the above applies to stacks of decorators -/
 theorem wrapper_wellformed (f : Func) (wf : WfFunc f) (inj : List Name)
@@ -450,6 +487,16 @@ theorem history_defaults_stay_attached (f : Func) (wf : WfFunc f) (ops : List BO
   exact ⟨⟨hn, wf'.len, wf'.kwd, wf'.kwdNodup⟩,
     fun p hp => (hd p hp).trans (by rw [fromFunc_kwSig]; rfl), hva, hvk, hann, hret, hasy,
     hname, hdoc, hmod⟩
+
+/-- annotations as `inspect.signature` shows them after any builder history (same reading as
+    `annotations_stay_attached`; the names left open by the statement are `readded ops`) -/
+theorem history_annotations_stay_attached (f : Func) (wf : WfFunc f) (ops : List BOp) (ident : Nat)
+    (w : Func) (h : buildHistory f ops ident = .ok w) (p : Name) :
+    get? p w.ann = (if p ∈ paramNames f then get? p f.ann else none) := by
+  rw [(history_defaults_stay_attached f wf ops ident w h).2.2.2.2.1]
+  by_cases hp : p ∈ paramNames f
+  · rw [if_pos hp]; exact get?_annOf hp
+  · rw [if_neg hp]; exact get?_annOf_of_not_mem hp
 
 /-- … and it forwards its own bound arguments, like every function the builder compiles -/
 theorem history_forwarding (f : Func) (ops : List BOp) (ident : Nat) (w : Func)
@@ -565,6 +612,11 @@ example : (buildHistory exF [.remove 2, .add 6 none false, .add 8 (some 42) true
   decide
 example : (wrapsN exF {} 3).toOption.map (fun w => (sigOf w, w.wrapped)) = some (sigOf exF, some 3) := by decide
 example : errOf (updateWrapper exF [] [(7, none)]) = some .syntaxError := by decide
+-- p4 (annotated 34) injected and expected again: the name is left open (`readdedW`); p1 keeps 31, p6 is new
+example : readdedW [4] [(4, some 44), (6, none)] = [4] := by decide
+example : (updateWrapper exF [4] [(4, some 44), (6, none)]).toOption.map
+    (fun w => (get? 1 w.ann, get? 6 w.ann, paramNames w)) = some (some 31, none, [1, 6, 2, 3, 4, 7, 5, 9]) := by decide
+example : readded [.remove 2, .add 6 none false, .remove 5, .add 2 (some 42) true] = [2] := by decide
 example : errOf (updateWrapper { exF with varkw := none } [8] []) = some .missingArgument := by decide
 
 /-- the same function wrapped three times, the second time with its keyword-only `p5=25`
